@@ -82,6 +82,20 @@ class KeyPool:
                     break
         return self._get(name, None)
 
+    def ec_x_first(self, alg=13, first=4, idx=0):
+        """An EC key whose X coordinate begins with the given octet (0x04: looks like a SEC1 prefix when X|Y is handled without one; 1 key in 256; cached)"""
+        name = f"ec-x-first-{alg}-{first}-{idx}"
+        if name not in self.data:
+            curve = ec.SECP256R1() if alg == 13 else ec.SECP384R1()
+            n = 32 if alg == 13 else 48
+            while True:
+                k = ec.generate_private_key(curve)
+                if k.public_key().public_numbers().x.to_bytes(n, "big")[0] == first:
+                    self.data[name] = k.private_bytes(serialization.Encoding.PEM, serialization.PrivateFormat.PKCS8, serialization.NoEncryption()).decode()
+                    self.dirty = True
+                    break
+        return self._get(name, None)
+
     def ec_x_lenlike(self, alg=13):
         """An EC key whose X coordinate begins with the octet a DER OCTET STRING wrapper of the point would carry as its length
         (0x3f for P-256 = 65-2, 0x5f for P-384), second octet not 0x04: as a bare point 04|X|Y it must still be read as a bare point (1 key in 256; cached)"""
